@@ -1,5 +1,5 @@
 """Which cases and clauses make up each property (DESIGN.md section 7)."""
-from . import aggregate, carriers, collect, configs, fx, invariance, purity, store, streams, profile, relational, qartod_attenuated, qartod_clim, qartod_flatline, qartod_location, qartod_range, qartod_spike, rate, utils_c
+from . import aggregate, carriers, clim_lemmas, collect, configs, fx, invariance, purity, store, streams, profile, relational, qartod_attenuated, qartod_clim, qartod_flatline, qartod_location, qartod_range, qartod_spike, rate, utils_c
 
 T_COMMON = [
     "T1 pyvc itself (proxy values, path exploration, VC generation) - mitigated by the conformance run, canaries and covers",
@@ -40,6 +40,7 @@ def _all_cases():
     cs += streams.cases()
     cs += configs.cases()
     cs += purity.cases()
+    cs += clim_lemmas.cases()
     cs += qartod_clim.add_cases()
     cs += [utils_c.Gcd()]
     return cs
